@@ -163,6 +163,16 @@ type runCfg struct {
 	// that has already been through another Minimize call); otherwise a fresh one is made.
 	method optimize.Method
 	trace  bool // record the full event trace of the run in runLog.trace
+	// ivF / ivG, when set, replace the true values in Settings.InitValues (special values supplied by the caller).
+	ivF *float64
+	ivG []float64
+	// sharedX0, when non-nil, is passed to Minimize as is (caller-owned start; group inputs).
+	sharedX0 []float64
+	// knownPts/knownVals are locations whose values the caller hands to the method
+	// (NelderMead.InitialVertices/InitialValues): they count as evaluated.
+	knownPts  [][]float64
+	knownVals []float64
+	settings  **optimize.Settings // if non-nil, receives the Settings value passed to Minimize
 }
 
 func (c *runCfg) start() []float64 {
@@ -324,7 +334,20 @@ func (c *runCfg) body(out *runResult) func() {
 		lg := &runLog{pts: map[string]*ptLog{}, minF: math.Inf(1)}
 		inst := c.o.mk()
 		x0 := append([]float64(nil), c.start()...)
+		if c.sharedX0 != nil {
+			x0 = c.sharedX0
+		}
 		lg.f0 = c.o.mk().f(x0)
+		if c.ivF != nil && c.initVals > 0 {
+			lg.f0 = *c.ivF
+		}
+		for i, p := range c.knownPts {
+			q := lg.pt(p)
+			q.f = append(q.f, c.knownVals[i])
+			if c.knownVals[i] < lg.minF {
+				lg.minF = c.knownVals[i]
+			}
+		}
 		budget := c.evalBudget()
 		p := optimize.Problem{Func: func(x []float64) float64 {
 			vsched.Point("Func")
@@ -419,6 +442,9 @@ func (c *runCfg) body(out *runResult) func() {
 				// stateful objectives are not disturbed.
 				aux := c.o.mk()
 				iv := &optimize.Location{F: aux.f(x0)}
+				if c.ivF != nil {
+					iv.F = *c.ivF
+				}
 				q := lg.pt(x0)
 				q.f = append(q.f, iv.F)
 				if c.m.local && iv.F < lg.minF {
@@ -428,6 +454,9 @@ func (c *runCfg) body(out *runResult) func() {
 				if c.initVals >= 2 {
 					iv.Gradient = make([]float64, len(x0))
 					aux.g(iv.Gradient, x0)
+					if c.ivG != nil {
+						copy(iv.Gradient, c.ivG)
+					}
 					q.g = append(q.g, append([]float64(nil), iv.Gradient...))
 				}
 				if c.initVals >= 3 {
@@ -438,6 +467,9 @@ func (c *runCfg) body(out *runResult) func() {
 			}
 		}
 		out.lg = lg
+		if c.settings != nil {
+			*c.settings = set
+		}
 		meth := c.method
 		if meth == nil {
 			meth = c.m.mk(mkLS(c.ls), c.o)
@@ -474,6 +506,16 @@ func dot(a, b []float64) float64 {
 	return s
 }
 
+// errorString is err.Error(), with a panic turned into a "PANIC: ..." string.
+func errorString(err error) (s string) {
+	defer func() {
+		if e := recover(); e != nil {
+			s = fmt.Sprintf("PANIC: %v", e)
+		}
+	}()
+	return err.Error()
+}
+
 func isLSError(err error) bool {
 	return errors.Is(err, optimize.ErrLinesearcherFailure) || errors.Is(err, optimize.ErrNonDescentDirection) ||
 		errors.Is(err, optimize.ErrNoProgress) || errors.Is(err, optimize.ErrLinesearcherBound)
@@ -483,6 +525,11 @@ func isLSError(err error) bool {
 // "" or a description of the violation (class, message).
 func (c *runCfg) check(r *runResult) (class, msg string) {
 	res, err, lg := r.res, r.err, r.lg
+	if err != nil {
+		if m := errorString(err); strings.HasPrefix(m, "PANIC: ") {
+			return "error-value", "the returned error cannot be printed: Error() " + m
+		}
+	}
 	conc := max(c.conc, 1)
 	if c.nilSet {
 		conc = 1
@@ -698,6 +745,10 @@ func (c *runCfg) check(r *runResult) (class, msg string) {
 		if c.m.local {
 			if c.o.finiteEverywhere() && !(res.F <= lg.f0) {
 				return "local-worse-than-start", fmt.Sprintf("local method ended at F=%v, worse than the start f(x0)=%v", res.F, lg.f0)
+			}
+			if c.o.kind == "nanregion" && c.m.usesLS && !(res.F <= lg.f0) {
+				// NaN trial points must never make a line search accept an increase
+				return "local-worse-than-start", fmt.Sprintf("line-search method ended at F=%v, worse than the start f(x0)=%v (objective undefined in a region)", res.F, lg.f0)
 			}
 		} else if lg.minF < math.Inf(1) && !sameBits(res.F, lg.minF) && !(res.F == 0 && lg.minF == 0) {
 			return "global-not-best", fmt.Sprintf("global method reports F=%v but the least evaluated value is %v", res.F, lg.minF)
